@@ -24,4 +24,15 @@ CONTROLS = [
          expect=r"gen_module/only-the-docstring-stays-above-the-hoisted-imports"),
     dict(name="BENIGN: the exists-guard tests the phase first", benign=True,
          edits=[("cdd/__main__.py", "path.isfile(args.output_filename) and args.phase == 0", "args.phase == 0 and path.isfile(args.output_filename)")]),
+    dict(name="names of builtins get an underscore appended (seed C19_d shape)",
+         edits=[("cdd/shared/pure_utils.py", "    elif iskeyword(s):\n        return \"{}_\".format(s)", "    elif iskeyword(s) or hasattr(__import__(\"builtins\"), s):\n        return \"{}_\".format(s)")],
+         expect=r"ensure_valid_identifier/ensures\[0\]"),
+    dict(name="underscores are stripped from identifiers",
+         edits=[("cdd/shared/pure_utils.py", "        \"_{}{}\".format(string.ascii_letters, string.digits)\n    )\n    return \"\".join(filter(valid.__contains__, s)) or \"_\"", "        \"{}{}\".format(string.ascii_letters, string.digits)\n    )\n    return \"\".join(filter(valid.__contains__, s)) or \"_\"")],
+         expect=r"ensure_valid_identifier/ensures\[0\]"),
+    dict(name="the symbol is named from the raw entry name, not from the template",
+         edits=[("cdd/compound/gen_utils.py", "ensure_valid_identifier(name_tpl.format(name=name))", "ensure_valid_identifier(name)")],
+         expect=r"get_emit_kwarg/symbol-named-by-the-template"),
+    dict(name="BENIGN: ensure_valid_identifier tests the empty string with len()", benign=True,
+         edits=[("cdd/shared/pure_utils.py", "    if not s:\n        return \"_\"\n    elif iskeyword(s):", "    if len(s) == 0:\n        return \"_\"\n    elif iskeyword(s):")]),
 ]
